@@ -188,13 +188,38 @@ func parsePermanodeContinueToken(v string) (t time.Time, br blob.Ref, ok bool) {
 	if col < 0 {
 		return
 	}
-	nano, err := strconv.ParseUint(v[:col], 10, 64)
-	if err != nil {
-		return
+	// Nanoseconds since the epoch, negative before 1970, or
+	// "<seconds>.<nanoseconds>" (see continueTokenTime).
+	if dot := strings.Index(v[:col], "."); dot >= 0 {
+		sec, err := strconv.ParseInt(v[:dot], 10, 64)
+		if err != nil {
+			return
+		}
+		nsec, err := strconv.ParseInt(v[dot+1:col], 10, 64)
+		if err != nil || nsec < 0 || nsec > 999999999 {
+			return
+		}
+		t = time.Unix(sec, nsec)
+	} else {
+		nano, err := strconv.ParseInt(v[:col], 10, 64)
+		if err != nil {
+			return
+		}
+		t = time.Unix(0, nano)
 	}
-	t = time.Unix(0, int64(nano))
 	br, ok = blob.Parse(v[col+1:])
 	return
+}
+
+// continueTokenTime formats t for a continue token: nanoseconds since the
+// epoch (negative before 1970), or "<seconds>.<nanoseconds>" for the times
+// that an int64 count of nanoseconds cannot express (before 1678, after
+// 2261), where UnixNano is undefined.
+func continueTokenTime(t time.Time) string {
+	if y := t.Year(); y > 1678 && y < 2262 {
+		return strconv.FormatInt(t.UnixNano(), 10)
+	}
+	return fmt.Sprintf("%d.%09d", t.Unix(), t.Nanosecond())
 }
 
 // addContinueConstraint conditionally modifies q.Constraint to scroll
@@ -1401,7 +1426,7 @@ func (q *SearchQuery) setResultContinue(corpus *index.Corpus, res *SearchResult)
 	if !ok {
 		return
 	}
-	res.Continue = fmt.Sprintf("pn:%d:%v", t.UnixNano(), lastpn)
+	res.Continue = fmt.Sprintf("pn:%s:%v", continueTokenTime(t), lastpn)
 }
 
 type matchFn func(context.Context, *search, blob.Ref, camtypes.BlobMeta) (bool, error)
